@@ -103,7 +103,7 @@ def recheck(case):
         res = rel.eval_file((case["kb"], case["qfile"], case["m"], cfgs, case["weakly"], case["cap"]))
         fs = compare({k: case[k] for k in ("kb", "qfile", "m", "weakly", "cap")}, res, res.get("_queries"))
         return fs[0] if fs else None
-    base_case = {k: case[k] for k in ("n", "sig", "weakly", "base", "queries")}
+    base_case = {k: case[k] for k in ("n", "sig", "weakly", "base", "queries", "inference_kwargs") if k in case}
     res = rel.eval_small((base_case, cfgs))
     fs = compare(base_case, res)
     return fs[0] if fs else None
@@ -147,6 +147,15 @@ def run(ctx):
         from_corpus = "note" in c
         c = {k: v for k, v in c.items() if not k.startswith("_") and k != "note"}
         eng = engines if (not quick or from_corpus) else ctx.rng.sample(engines, min(4, len(engines)))
+        if len(jobs) % 11 == 5:
+            # back-end independence also under parallel evaluation (with or without a generous budget)
+            c["inference_kwargs"] = ctx.rng.choice([{"multi_inference": True}, {"multi_inference": True, "inference_timeout": 600}])
+            eng = eng[:2]
+            # queries decided by the general short cut (unsatisfiable antecedent, unfalsifiable query) belong to every batch
+            a0 = ("a", ctx.rng.randrange(c["n"]))
+            k0 = max([q[0] for q in c["queries"]] + [0])
+            c["queries"] = c["queries"] + [[k0 + 1, core.gen_formula(ctx.rng, c["n"], 1, 0.0), ("&", a0, ("!", a0))],
+                                           [k0 + 2, a0, ("&", a0, core.gen_formula(ctx.rng, c["n"], 1, 0.0))]]
         jobs.append((c, configs_for(c["weakly"], eng)))
     results = rel.pmap(ctx, rel.eval_small, jobs, rel.eval_small_isolated(ctx))
     for (c, cfgs), res in zip(jobs, results):
